@@ -46,8 +46,7 @@ static void exec_c11(const plan_t *p)
     conf_fill_dir(p);
     simfs_set_mkstemp_mode((int)plan_get(p, "mkstemp.mode", 0600));
     conf_set_index_checks(1);
-    setenv("HOME", "/home/u", 1); setenv("V1", "val-one", 1); setenv("EMPTY", "", 1);
-    if (plan_get(p, "tmpdir", 0)) setenv("TMPDIR", "/tmp", 1);
+    conf_env_setup(p);
     for (int i = 0; i < p->nops; i++) {
         op_t *o = (op_t *)&p->ops[i];
         const char *k = o->kind;
@@ -239,7 +238,11 @@ static void gen_conf_file(plan_t *p, rng_t *r, const char *name, int allow_exec,
             else if (c < 88) add("%%random(a b c d)\n");
             else if (c < 90) add("%%version() %%appname()\n");
             else if (c < 92 || (bigdir && c < 97)) add("%s%%dirscan(/cfg/d)\n", rng_chance(r, 1, 3) ? "x " : "");
-            else if (c < 94 && allow_exec) add(rng_chance(r, 1, 2) ? "%%exec(echo hello   world)\n" : "x `echo back quoted` y\n");
+            else if (c < 94 && allow_exec) {
+                if (rng_chance(r, 1, 5)) { static const int bl[] = { 1, 100, 4096, 20470, 20478, 20479, 20480, 20481, 30000 }; add("v %%exec(big %d) w\n", bl[rng_below(r, 9)]); }
+                else add(rng_chance(r, 1, 2) ? "%%exec(echo hello   world)\n" : "x `echo back quoted` y\n");
+            }
+            else if (c < 94) { int n = rng_range(r, 120, 140); add(rng_chance(r, 1, 2) ? "n ${" : "n $"); for (int i = 0; i < n; i++) add("N"); add("} x\n"); }
             else if (c < 95 && allow_exec && level == 0) add("%%preproc cat\n");      /* (re-reading a self-including file doubles the recursion at every level) */
             else if (c < 97) add("trailing backslash \\\n");
             else add("unterminated ${V1 and $(HOME\n");
@@ -264,7 +267,9 @@ static void gen_c11(plan_t *p, rng_t *r)
     plan_knob(p, "alloc.realloc", rng_range(r, 0, 2));
     plan_knob(p, "alloc.reuse", rng_range(r, 0, 2));
     plan_knob(p, "mkstemp.mode", rng_chance(r, 1, 2) ? 0600 : 0666);
-    plan_knob(p, "tmpdir", rng_chance(r, 1, 3));
+    plan_knob(p, "tmpdir", rng_chance(r, 1, 3) ? (rng_chance(r, 1, 3) ? rng_range(r, 2, 3) : 1) : 0);
+    if (plan_get(p, "tmpdir", 0) >= 2) { static const int tl[] = { 200, 225, 230, 235, 238, 239, 240, 241, 242, 243, 244, 245, 249, 250, 255, 256, 300 }; plan_knob(p, "tmpdir.len", tl[rng_below(r, 17)]); }
+    if (rng_chance(r, 1, 10)) { static const int el[] = { 120, 127, 128, 300, 4096, 20470, 20478, 20479, 20480, 20481, 30000, 65000 }; plan_knob(p, rng_chance(r, 1, 2) ? "env.v1len" : "env.homelen", el[rng_below(r, 12)]); }
     plan_knob(p, "budget", 3000000);       /* a self-including file legitimately recurses 255 levels deep */
     if (rng_chance(r, 1, 10)) {
         /* a directory whose listing is as long as the line buffer, give or take a few bytes */
